@@ -8,9 +8,10 @@ import G9.Driver.Logger
 import G9.Driver.SrvSeq
 import G9.Driver.Frame
 import G9.Driver.Ufs
+import G9.Driver.Clnt
 open G9 G9.Driver
 
-def handlers : List (String → List String → Option String) := [wire, logger, srvseq, frames, ufs]
+def handlers : List (String → List String → Option String) := [wire, logger, srvseq, frames, ufs, clnt]
 
 def answer (line : String) : String :=
   match (line.trimAscii.toString.splitOn " ").filter (· ≠ "") with
